@@ -501,10 +501,47 @@ def members_of_value(x):
     return [x]
 
 
+_twins = {}
+
+
+def dump_twin_first(E, v):
+    """another enum class with the SAME __name__ (as `Status` in two packages of one program), in which number v carries a
+    different name (or has a name where E has none), is dumped to JSON before E is: whatever E does with v afterwards must
+    be E's own business (seeded change C20-4: a name cache keyed by the class name)"""
+    import betterproto as bp
+
+    key = (E, v)
+    if key in _twins:
+        return
+    _twins[key] = True
+    tmod = "c20_twin_" + E.__name__ + "_" + str(v).replace("-", "m")
+    mod = types.ModuleType(tmod)
+    mod.__dict__.update(List=List, Dict=Dict, Optional=Optional)
+    sys.modules[tmod] = mod
+    ns = {"__module__": tmod, "__qualname__": E.__name__, "TWIN_ZERO": 0}
+    if v != 0:
+        ns["TWIN_NAME"] = v
+    T = type(bp.Enum)(E.__name__, (bp.Enum,), ns)
+    mod.__dict__[E.__name__] = T
+    MT = dataclasses.make_dataclass("TwinHolder", [("s", E.__name__, bp.enum_field(1)), ("r", f"List[{E.__name__}]", bp.enum_field(2)),
+                                                   ("m", f"Dict[str, {E.__name__}]", bp.map_field(3, bp.TYPE_STRING, bp.TYPE_ENUM))],
+                                    bases=(bp.Message,), eq=False, repr=False)
+    MT.__module__ = tmod
+    mod.__dict__["TwinHolder"] = MT
+    t = MT(s=T(v), r=[T(v), T.try_value(v + 1 if v < 2 ** 31 - 1 else v - 1)], m={"k": T(v)})
+    t.to_dict(); t.to_json(); t.to_dict(include_default_values=True)
+    MT().from_dict(t.to_dict())
+
+
 def check_position(E, M, pos, codec, v):
     """round trip of number v in position pos through codec; returns a reason or None"""
     import betterproto as bp
 
+    if codec != "binary":
+        try:
+            dump_twin_first(E, v)
+        except Exception:  # noqa
+            pass
     val = E.try_value(v)
     want = position_value(pos, val)
     m = M(**{pos: want})
